@@ -249,10 +249,15 @@ P = {
         "C04_typing_canonical, C04_xtable_main (with attribute parsing and typing), C04_row_containers_transparent / _independent / "
         "C04_table_items_main (the loop over the content of table:table: rows held in table:table-header-rows, table:table-rows, "
         "table:table-row-group nested to any depth, with any neighbours, read as the same rows in document order), "
-        "C04_no_panic_table_loop. No known class (F7 fixed). Tie: generated .ods "
+        "C04_no_panic_table_loop; the layout of a row (xrow / xcell widened after audit 2, fixes ODS-3 / ODS-1): between the cells white-space "
+        "text and comments, among the children of a cell white space, comments, an annotation and drawing objects anchored to the cell with "
+        "paragraphs of their own — C04_cell_layout_transparent, C04_row_layout_transparent / _independent (a row reads as its flat form), "
+        "C04_row_foreign_item_rejected, C04_table_items_layout_main / C04_table_layout_independent (composed with the table loop and the grid "
+        "theorem), C04_no_panic_read_ritems. No known class (F7 fixed; F29 = ODS-3 fixed). Tie: generated .ods "
         "files (same grid under several run-length groupings and row-holder arrangements, first used column != A, blank rows, covered cells, formula-only cells "
-        "without cached value, huge repeats) through Ods::new + worksheet_range + worksheet_formula, and the get_range hook.",
-   note=TB + " attribute-order irrelevance of get_datatype is sampled, not proved; text content of cells is C19's model; zip and quick-xml are outside.",
+        "without cached value, huge repeats; flat or indented at every level, comments, annotations, anchored images / shapes / text boxes / groups with text, "
+        "rarely a CDATA section between cells: rejected) through Ods::new + worksheet_range + worksheet_formula, and the get_range hook.",
+   note=TB + " attribute-order irrelevance of get_datatype is sampled, not proved; the text grammar inside a paragraph is C19's model (a paragraph is its text here); zip and quick-xml are outside.",
    technique="Coq proof (two-pass invariant induction over rows/cells; reduction to a bounding-box spec) + extracted-model correspondence on real .ods files",
    design_ref="5/C04"),
  "C13": dict(claimed=True,
@@ -295,7 +300,9 @@ P = {
         "elements / junk records anywhere, relationship ids in any order, target spellings, 8- or 16-bit name storage, 1-2-byte record "
         "types with 1-4-byte lengths) the parsed record equals the logical workbook; projections C16_sheets_in_order_*, "
         "C16_defined_names_in_order_* (xlsb names rendered through C14's rpn_correct_xlsb; xls names through parse_defined_names with "
-        "$ exactly on absolute components and XTI resolution), C16_rels_roundtrip_*, C16_tables_injective, and "
+        "$ exactly on absolute components and XTI resolution; ods: EVERY name of the document in document order — the sheet-scoped names stored "
+        "in a table:named-expressions element anywhere among the children of their table:table, then the global ones (fix ODS-2; "
+        "Meta.ods_workbook / ow_all_names)), C16_rels_roundtrip_*, C16_tables_injective, and "
         "C16_date_flag_reaches_cells_{xlsx,xls,xlsb} composed with C10's date_iff_style theorems. No known class left (four repaired "
         "in /repo). Totality: C16_no_panic_xlsx_open, C16_no_panic_ods_parse_content. Tie: generated workbooks of the four formats "
         "through sheet_names, sheets_metadata, defined_names, worksheet_range, plus perturbed event lists / byte streams.",
@@ -327,7 +334,10 @@ P = {
         "inline / formula string; plain, split into runs at arbitrary cut points, with phonetic runs; Text and CDATA chunks in any "
         "mixture; any namespace prefix); the ST_Xstring layer: C19_xstring_decode_is_spec, C19_xstring_roundtrip, "
         "C19_xstring_text_survives; ods: space runs (text:s with any count), paragraphs, tabs and line breaks (ods_encode_survives "
-        "for all texts); UTF-16: round trip and lone-surrogate characterisation for wide_str / decode_to; C19_text_survives_xls (shared / LABEL / formula string of an xls workbook, composed from C12's theorems). No known class left (five "
+        "for all texts), over every arrangement of the children of a string cell (citem / opiece widened after audit 2, fixes ODS-1 / ODS-3 / "
+        "ODS-4): paragraphs, annotation, drawing objects anchored to the cell or as characters with whatever they hold (same-name nesting to any "
+        "depth), the white space of an indented file between the children, comments, phonetic guides — C19_text_survives_ods, "
+        "C19_ods_nonpara_contributes_nothing, C19_ods_ruby_text_contributes_nothing, C19_ods_ruby_is_its_base, C19_ods_layout_independent; UTF-16: round trip and lone-surrogate characterisation for wide_str / decode_to; C19_text_survives_xls (shared / LABEL / formula string of an xls workbook, composed from C12's theorems). No known class left (five "
         "repaired in /repo). Totality: C19_no_panic_read_string / _read_shared_strings / _read_cell / _read_sheet_cells / "
         "_read_sheet_formulas / _ods_cell / _wide_str (all event lists / byte strings). Tie: generated .xlsx, .ods, .xls and .xlsb files "
         "(escape material, CDATA, rich runs, tabs / breaks everywhere; xls shared / inline / formula strings up to 32767 units with CONTINUE cuts) through the public API, hooks wide_str / decode_to.",
